@@ -16,6 +16,7 @@ from pyvc import spec, sym as S, models as M
 from pyvc.sym import Sym, is_sym, And, Or, Not, Implies, Ite
 
 UNITS = []
+NUMCELL = lambda: Fork([Xl('Number', 'real', domain=[2.5, -1.0, 0.0]), Xl('Number', 'int', domain=[3, 0])])
 CELL = lambda: Fork([Xl('Number', 'real', domain=[2.5, -1.0, 0.0]), Xl('Number', 'int', domain=[3, 0]), XlBlank(), Const('TEXT', 'text "abc"')])
 
 
@@ -90,6 +91,23 @@ for _f, _mod in (('SUM', 'math'), ('AVERAGE', 'statistics'), ('MIN', 'statistics
         cases=[Case(f'{_f} = the reference fold of exactly the numeric (non-empty) values of the range and the scalar', lambda *a: True,
                     (lambda f: lambda a, b, c, s, out: spec.numeric_result(out, expect(f, a, b, c, s), tol=1e-12))(_f))],
         canary=Case('canary', lambda *a: True, (lambda f: lambda a, b, c, s, out: spec.numeric_result(out, expect(f, a, b, c, s) + 1, tol=1e-12))(_f)),
+        call=agg_call(_f, False), native_call=agg_call(_f, True), bounded_domain_cap=300, max_paths=300))
+
+
+# the same with an EMPTY cell addressed on its own (a single-cell argument that holds nothing): it is no number and no value
+def _blank_scalar_ens(f):
+    def ens(a, b, c, s, out):
+        return spec.numeric_result(out, expect(f, a, b, c, s), tol=1e-12)
+    return ens
+
+
+for _f, _mod in (('SUM', 'math'), ('AVERAGE', 'statistics'), ('MIN', 'statistics'), ('MAX', 'statistics'), ('COUNT', 'statistics'), ('COUNTA', 'statistics')):
+    UNITS.append(Unit(
+        id=f'C14/{_mod}.{_f}/empty_cell_on_its_own', target=f'xlcalculator.xlfunctions.{_mod}:{_f}', fork='product',
+        # AVERAGE / MIN / MAX: the first cell holds a number, so that the fold is defined (no number at all: the statement names no result)
+        inputs=[('a', NUMCELL() if _f in ('AVERAGE', 'MIN', 'MAX') else CELL()), ('b', CELL()), ('c', CELL()), ('s', XlBlank())],
+        cases=[Case(f'{_f}: an empty cell given as an argument of its own counts for nothing - the result is the fold of the numeric (non-empty) values of the range',
+                    lambda *a: True, _blank_scalar_ens(_f))],
         call=agg_call(_f, False), native_call=agg_call(_f, True), bounded_domain_cap=300, max_paths=300))
 
 
